@@ -118,7 +118,7 @@ RowPerms(n) == IF n <= 4 THEN Permutations(1..n)
 (* ---------------- initial states ---------------------------------------- *)
 K(form) == IF IsList(form) THEN KList ELSE 1
 CsOf(form) == IF IsData(form) THEN Cs ELSE {1}
-LabelsOK(l, C) == /\ \A g \in 1..C : Cardinality({o \in DOMAIN l : l[o] = g}) \in 1..MaxRep
+LabelsOK(l, C) == /\ \A g \in 1..C : Cardinality({o \in DOMAIN l : l[o] = g}) \in 1..(IF C = 1 THEN MaxN ELSE MaxRep)
                   /\ Len(l) - C >= 1
 Scaled(l, raw, P) == [lab |-> l, x |-> [o \in 1..Len(l) |-> [c \in 1..P |-> GroupLcm(l) * raw[o][c]]]]
 \* every label vector onto 1..C = every design (balanced or not) in every row order
